@@ -1,0 +1,55 @@
+//! Verification hooks (feature `verif_hooks`). Inert unless a callback is installed.
+#![allow(missing_docs)]
+
+use std::{cell::RefCell, io, sync::{Arc, RwLock}};
+
+/// A hook callback: `(point name, argument)`; an `Err` is only honoured by `fault_point`.
+pub type Callback = Arc<dyn Fn(&str, u64) -> io::Result<()> + Send + Sync>;
+
+thread_local! {
+    static THREAD_CB: RefCell<Option<Callback>> = RefCell::new(None);
+}
+static GLOBAL_CB: RwLock<Option<Callback>> = RwLock::new(None);
+
+pub fn set_thread_callback(cb: Option<Callback>) {
+    THREAD_CB.with(|c| *c.borrow_mut() = cb);
+}
+
+pub fn set_global_callback(cb: Option<Callback>) {
+    *GLOBAL_CB.write().unwrap() = cb;
+}
+
+fn current() -> Option<Callback> {
+    let t = THREAD_CB.with(|c| c.borrow().clone());
+    t.or_else(|| GLOBAL_CB.read().unwrap().clone())
+}
+
+/// A point the harness may observe or pause at. Never fails.
+pub fn sync_point(name: &str, arg: u64) {
+    if let Some(cb) = current() {
+        let _ = cb(name, arg);
+    }
+}
+
+/// A point at which the harness may inject an I/O error.
+pub fn fault_point(name: &str, arg: u64) -> io::Result<()> {
+    match current() {
+        Some(cb) => cb(name, arg),
+        None => Ok(()),
+    }
+}
+
+thread_local! {
+    static NOW: RefCell<Option<chrono::DateTime<chrono::Local>>> = RefCell::new(None);
+}
+
+/// Overrides the time trigger's notion of "now" for the calling thread.
+#[cfg(feature = "chrono")]
+pub fn set_now(now: Option<chrono::DateTime<chrono::Local>>) {
+    NOW.with(|n| *n.borrow_mut() = now);
+}
+
+#[cfg(feature = "chrono")]
+pub(crate) fn now_override() -> Option<chrono::DateTime<chrono::Local>> {
+    NOW.with(|n| *n.borrow())
+}
